@@ -7,6 +7,7 @@ import (
 	"fmt"
 	"go/token"
 	"go/types"
+	"reflect"
 	"sort"
 	"strings"
 
@@ -180,7 +181,7 @@ func mappingOf(w *World, fn *ssa.Function) ([]mapEntry, string) {
 var inverseConv = map[string]string{"id": "id", "slice": "array", "array": "slice", "unixnano": "fromnano", "fromnano": "unixnano"}
 
 func init() {
-	register("C19", []string{"./gossip", "./transformers", "./accountant", "./transaction"},
+	register("C19", []string{"./gossip", "./transformers", "./accountant", "./transaction", "./spice"},
 		"Sibling-table agreement of the wire mappings, decided from the SSA of the two mapper pairs: every signed/semantic field of Vertex, Transaction and Melange is mapped in both directions; composing the two directions is the identity on field names; "+
 			"each conversion pair is an inverse pair from {identity; h[:] / [32]byte(x); uint64(t.UnixNano()) / time.Unix(0,int64(x))}; the nested transaction mapping inside the vertex mappers agrees with transformers. "+
 			"The storage/cache (msgpack) pairs — one library encodes, another decodes — are NOT decided: their agreement is a property of the libraries' format tables over all values.",
@@ -274,6 +275,42 @@ func runC19(w *World, r *Report) {
 		d, okD := ddT[f]
 		r.check(okC && okD && strings.TrimPrefix(c.src, "Transaction.") == d.src && c.conv == d.conv, "nested-agrees-with-transformers", "from-wire."+f, c.pos,
 			"gossip and transformers restore the field from the same wire field the same way", fmt.Sprintf("gossip: %s %s; transformers: %s %s", c.src, c.conv, d.src, d.conv))
+	}
+
+	// storage/cache form: the only part of the msgpack pairs that is in the shape of this repository's code
+	r.rule("msgpack-keys", "structs encoded by one msgpack library and decoded by another share one key table: every exported field carries a msgpack tag and tags are unique per struct (a duplicate or missing key silently drops a field on decode)", 4)
+	for _, spec := range [][2]string{{"accountant", "Vertex"}, {"transaction", "Transaction"}, {"spice", "Melange"}, {"accountant", "Balance"}} {
+		pkg := w.Pkg(spec[0])
+		if pkg == nil {
+			continue
+		}
+		obj := pkg.Pkg.Scope().Lookup(spec[1])
+		if obj == nil {
+			r.bad("msgpack-keys", spec[0]+"."+spec[1], "-", "struct must exist", "not found")
+			continue
+		}
+		st := obj.Type().Underlying().(*types.Struct)
+		seen := map[string]string{}
+		bad := ""
+		for i := 0; i < st.NumFields(); i++ {
+			f := st.Field(i)
+			if !f.Exported() {
+				continue
+			}
+			tag := reflect.StructTag(st.Tag(i)).Get("msgpack")
+			if tag == "-" {
+				continue
+			}
+			name := strings.Split(tag, ",")[0]
+			if name == "" {
+				bad = "field " + f.Name() + " has no msgpack key"
+			}
+			if prev, dup := seen[name]; dup {
+				bad = "fields " + prev + " and " + f.Name() + " share the key " + name
+			}
+			seen[name] = f.Name()
+		}
+		r.check(bad == "", "msgpack-keys", spec[0]+"."+spec[1], w.Pos(obj.Pos()), fmt.Sprintf("%d keyed fields, all distinct", len(seen)), bad)
 	}
 
 	// no extra unmapped wire field silently dropped is out of scope; but no domain field may receive a constant
